@@ -51,11 +51,15 @@ func GenReacquirePlan(t *rapid.T, profile string) *Plan {
 	return p
 }
 
-// MixReacquire returns gen, except that one case in five comes from GenReacquirePlan.
+// MixReacquire returns gen, except that one case in six comes from GenReacquirePlan and one in six from
+// GenRestartInFlightPlan.
 func MixReacquire(profile string, gen func(*rapid.T) *Plan) func(*rapid.T) *Plan {
 	return func(t *rapid.T) *Plan {
-		if rapid.IntRange(0, 4).Draw(t, "shape") == 0 {
+		switch rapid.IntRange(0, 5).Draw(t, "shape") {
+		case 0:
 			return GenReacquirePlan(t, profile)
+		case 1:
+			return GenRestartInFlightPlan(t, profile)
 		}
 		return gen(t)
 	}
